@@ -36,6 +36,15 @@ def i32Pattern (v : Int) : Nat :=
   let s : Int := if v > 2147483647 then 2147483647 else if v < -2147483648 then -2147483648 else v
   (if s < 0 then s + 4294967296 else s).toNat
 
+/-- `i64` `Display`: sign and decimal digits -/
+def intDigits (n : Int) : List Char := (if n < 0 then ['-'] else []) ++ radixDigits 10 n.natAbs
+
+/-- reading of an optionally signed decimal integer text -/
+def readIntDigits (cs : List Char) : Int :=
+  match cs with
+  | '-' :: rest => -((radixValue 10 rest : Nat) : Int)
+  | _ => ((radixValue 10 cs : Nat) : Int)
+
 /-- `NumberItem::print` for the based kinds (fix 'every digit' in /repo) and `Raw` -/
 def printBased (v : F) (t : NumType) : String :=
   let i : Int := Num.truncInt v   -- every digit (format_radix in /repo); negative values: 32-bit pattern
@@ -44,7 +53,7 @@ def printBased (v : F) (t : NumType) : String :=
   | .binary => "0b" ++ String.ofList (radixDigits 2 (if nonneg then i.toNat else i32Pattern i))
   | .octal => "0o" ++ String.ofList (radixDigits 8 (if nonneg then i.toNat else i32Pattern i))
   | .hex => "0x" ++ String.ofList (radixDigits 16 (if nonneg then i.toNat else i32Pattern i))
-  | _ => toString (Num.toInt v)      -- Raw: `as i64`
+  | _ => String.ofList (intDigits (Num.toInt v))      -- Raw: `as i64`
 
 def replaceStr (s pat rep : String) : String := String.ofList (strReplaceL s.toList pat.toList rep.toList)
 where
